@@ -33,6 +33,7 @@ type BGVCase struct {
 	Merges2 []Merge   `json:"merges2"`  // aggregation schedule of the re-encryption shares (share conversion only)
 	Getter  int       `json:"getter"`   // share conversion: party calling GetShare; == Parties: an external, key-less party
 	GetMode int       `json:"getMode"`  // GetShare output: 0 in place (own share), 1 a fresh share, 2 a re-used share with earlier content
+	Unbatched bool    `json:"unbatched,omitempty"` // refresh mode: the input is a coefficient-encoded (IsBatched=false) ciphertext
 	Dirty   bool      `json:"dirtyReceivers"` // every receiver (shares, additive shares, aggregation outputs, re-encryption ciphertext) holds earlier content
 	Shallow bool      `json:"shallow"`
 
@@ -180,6 +181,7 @@ func genBGVRefresh(t *rapid.T) BGVCase {
 	qOut := c.Params.Q
 	if rapid.IntRange(0, 2).Draw(t, "mode") == 0 {
 		c.Mode = "refresh"
+		c.Unbatched = rapid.IntRange(0, 2).Draw(t, "unbatched") == 0
 	} else {
 		c.Mode = "transform"
 		c.Decode = rapid.Bool().Draw(t, "decode")
@@ -354,6 +356,10 @@ func setupBGV(c BGVCase, rec *h.Rec) (*bgvCtx, error) {
 	}
 	pt := bgv.NewPlaintext(params, lvl)
 	pt.Scale = params.NewScale(c.Scale)
+	if c.Unbatched && c.Mode == "refresh" {
+		pt.IsBatched = false
+		rec.Class("input=coefficient-encoded")
+	}
 	if err := x.ecd.Encode(x.values, pt); err != nil {
 		return nil, h.Failf("C16:setup:encode", "%v", err)
 	}
@@ -752,6 +758,9 @@ func (x *bgvCtx) newCT(seed uint64, levelIn int, drop bool, scale uint64, patter
 	}
 	pt := bgv.NewPlaintext(params, lvl)
 	pt.Scale = params.NewScale(scale)
+	if x.c.Unbatched && x.c.Mode == "refresh" {
+		pt.IsBatched = false
+	}
 	if err := x.ecd.Encode(values, pt); err != nil {
 		return nil, nil, h.Failf("C16:setup:encode", "%v", err)
 	}
@@ -871,7 +880,11 @@ func runBGVRefresh(c BGVCase, rec *h.Rec) error {
 		// expected plaintext polynomial modulo t of the output
 		scale := ct.Scale
 		ptT := ringT.NewPoly()
-		if err := x.ecd.EncodeRingT(r.values, scale, ptT); err != nil {
+		if !ct.IsBatched {
+			for j, v := range r.values {
+				ptT.Coeffs[0][j] = mulmod(v, scale.Uint64(), T)
+			}
+		} else if err := x.ecd.EncodeRingT(r.values, scale, ptT); err != nil {
 			return h.Failf("C16:setup:EncodeRingT", "%v", err)
 		}
 		wantT := ringT.NewPoly()
@@ -1057,6 +1070,15 @@ func runBGVRefresh(c BGVCase, rec *h.Rec) error {
 		}
 		if out.Level() != r.levelO {
 			return h.Failf("C16:mpbgv:"+c.Mode+":Transform:output-level", "output level %d, requested (CRP / share) level %d", out.Level(), r.levelO)
+		}
+		if !out.MetaData.Equal(ctOrig.MetaData) {
+			key := "C16:mpbgv:" + c.Mode + ":output-metadata-not-set"
+			msg := fmt.Sprintf("output metadata %+v differs from the input metadata %+v (outMode=%d, first use=%v)", out.MetaData, ctOrig.MetaData, r.outMode, r.first)
+			if rec.Known(key, msg) {
+				rec.Class("known=output-metadata")
+			} else {
+				return h.Failf(key, "%s", msg)
+			}
 		}
 		xo := &bgvCtx{c: c, params: paramsOut, ecd: ecdOut}
 		gotT := xo.decryptT(out, outKeys.ideal)
